@@ -17,6 +17,7 @@ import (
 
 	"chainguard.dev/apko/pkg/apk/apk"
 	apkfs "chainguard.dev/apko/pkg/apk/fs"
+	"golang.org/x/sys/unix"
 )
 
 // corr:retry-e2e — C20 end to end.  The callers of the retry transport and the byte path of the cache
@@ -310,6 +311,23 @@ func e2eDirState(root string) []string {
 	return out
 }
 
+// e2eAgeEntries: time passes between the operations of a history.  Every advertised entry (link) that was
+// not there before gets a modification time of its own, later than all earlier ones (file systems stamp
+// new inodes with a coarse clock: two operations of one case may fall into the same tick, and fetchOffline
+// orders by modification time).
+func e2eAgeEntries(root string, seen map[string]bool, tick *int64) {
+	_ = filepath.WalkDir(root, func(p string, d fs.DirEntry, err error) error {
+		if err != nil || d.IsDir() || d.Type()&fs.ModeSymlink == 0 || seen[p] {
+			return nil
+		}
+		seen[p] = true
+		*tick++
+		ts := unix.Timespec{Sec: 1_600_000_000 + *tick}
+		_ = unix.UtimesNanoAt(unix.AT_FDCWD, p, []unix.Timespec{ts, ts}, unix.AT_SYMLINK_NOFOLLOW)
+		return nil
+	})
+}
+
 func e2eSizes(xs []int) string {
 	parts := make([]string, len(xs))
 	for i, x := range xs {
@@ -357,6 +375,8 @@ func e2eRunHist(ctx context.Context, c e2eCase, dir string) []Step {
 	var opsProto, answers []string
 	tags := map[string]bool{"target:" + c.Target: true, fmt.Sprintf("memo:%v", c.Memo): true, "kind:" + c.SrvKind: true}
 	sawErr, published, anyOK, anyFault := false, false, false, false
+	seenEntries := map[string]bool{}
+	var tick int64
 	for _, op := range c.Ops {
 		switch op.Op {
 		case "publish":
@@ -396,6 +416,7 @@ func e2eRunHist(ctx context.Context, c e2eCase, dir string) []Step {
 			res = "R:ok:" + hex.EncodeToString(got)
 			anyOK = true
 		}
+		e2eAgeEntries(dir, seenEntries, &tick)
 		st := e2eDirState(dir)
 		answers = append(answers, e2eAnswer(res, st, inner.events))
 		opsProto = append(opsProto, "O"+op.Mode+":"+e2eXScript(op.Script)+":"+e2eSizes(inner.sizes))
